@@ -528,7 +528,9 @@ impl ToMysqlValue for Duration {
     fn to_mysql_bin<W: Write>(&self, w: &mut W, c: &Column) -> io::Result<()> {
         let s = self.as_secs();
         let d = s / (24 * 3600);
-        assert!(d <= 34);
+        if d > 34 {
+            return Err(bad(self, c));
+        }
         let h = (s % (24 * 3600)) / 3600;
         let m = (s % 3600) / 60;
         let s = s % 60;
